@@ -40,8 +40,8 @@ def run(tier, seed):
     try:
         mc = xc.mc_bv(wd, tier)
         q = tier == "quick"
-        res = xc.judge(rep, "fault", 14 if q else 280, seed + 5000, wd, "f", OWNS, jobs=8 if q else 14)
-        xc.judge(rep, "data", 6 if q else 100, seed + 5000, wd, "d", OWNS, res=res)
+        res = xc.judge(rep, "fault", 14 if q else 900, seed + 5000, wd, "f", OWNS, jobs=8 if q else 14)
+        xc.judge(rep, "data", 6 if q else 300, seed + 5000, wd, "d", OWNS, res=res)
         hev, hsc = history_phase(rep, seed, wd, q)
         rep.cov["samples"] = [{"families": ["fault", "data"], "example": sorted(res.distinct)[:3]}]
         xc.finish_cov(rep, res, mc, "DIV/IDIV with dividends built as q*d+r for q at the representability boundary (and zero divisors); every "
